@@ -53,7 +53,7 @@ for op in OPS:
 
 for op in OPS:
     # shortcuts with non-terminal operands, point-wise (the operand's value at an arbitrary assignment is a ghost terminal)
-    jobs.append(job('mt_%s_shortcuts_pw' % op, 'lemma_mt_%s_shortcuts_pw' % op, props=['C05']))
+    jobs.append(job('mt_%s_shortcuts_pw' % op, 'lemma_mt_%s_shortcuts_pw' % op, props=['C05', 'C16'] if op in ('div', 'mod') else ['C05']))
 CMP = ['eq', 'ne', 'gt', 'ge', 'lt', 'le']
 CF = 'src/operations/compare.cc'
 EVH = 'src/edge_value.h'
